@@ -140,13 +140,15 @@ func abs(p string) string {
 }
 
 func logOp(e LogEntry) {
-	if logF == nil {
-		return
+	if logF != nil {
+		e.Seq = logSeq
+		logSeq++
+		data, _ := json.Marshal(e)
+		logF.Write(append(data, '\n'))
 	}
-	e.Seq = logSeq
-	logSeq++
-	data, _ := json.Marshal(e)
-	logF.Write(append(data, '\n'))
+	if pendingInterject != "" {
+		interject()
+	}
 }
 
 var errnos = map[string]syscall.Errno{
@@ -168,10 +170,37 @@ func match(prim, path string) *Rule {
 		r.seen++
 		if n == r.Nth {
 			r.Fired++
+			if r.Action == "interject" {
+				// not a failure: right after this primitive another actor
+				// (a second generator run, an editor) puts a file next to it
+				pendingInterject = path
+				return nil
+			}
 			return r
 		}
 	}
 	return nil
+}
+
+var pendingInterject string
+
+// interject plays the other actor: it creates a file inside path if that is a
+// directory, next to it otherwise.
+func interject() {
+	p := pendingInterject
+	pendingInterject = ""
+	dir := p
+	if fi, err := os.Stat(p); err != nil || !fi.IsDir() {
+		dir = filepath.Dir(p)
+	}
+	name := filepath.Join(dir, "zz_other_actor.txt")
+	err := os.WriteFile(name, []byte("written by another process while moq was running\n"), 0o644)
+	e := LogEntry{Prim: "interject", Path: name, Err: errStr(err), Seq: logSeq}
+	logSeq++
+	if logF != nil {
+		data, _ := json.Marshal(e)
+		logF.Write(append(data, '\n'))
+	}
 }
 
 func (r *Rule) err(op, path string) error {
